@@ -19,7 +19,7 @@ Definition is_letter_latin1 (r : Z) : bool :=
   is_alpha r || (r =? 170) || (r =? 181) || (r =? 186) ||
   ((192 <=? r) && (r <=? 214)) || ((216 <=? r) && (r <=? 246)) || ((248 <=? r) && (r <=? 255)).
 Definition is_unreserved_impl (r : Z) : bool :=
-  is_letter_latin1 r || is_digit r || (r =? 45) || (r =? 46) || (r =? 95) || (r =? 126).
+  is_alpha r || is_digit r || (r =? 45) || (r =? 46) || (r =? 95) || (r =? 126).
 (* strings.Builder.WriteRune for r < 256 *)
 Definition write_rune (r : Z) : bytes :=
   if r <? 128 then [r] else [192 + r / 64; 128 + r mod 64].
@@ -236,13 +236,21 @@ Definition split_host_port (hp : bytes) : bytes * bytes :=
 
 (* makeURLKey for a URL with empty Opaque *)
 Definition make_url_key (u : url) : bytes :=
-  let path1 := match escaped_path_of (resolve_path (u_path u) []) with Some p => p | None => u_path u end in
+  (* percent-decoding of unreserved characters happens before dot-segment removal *)
+  let escaped := normalize_percent_encoding (u_path u) in
+  let ep := match unescape_path 0 escaped with
+            | Some decoded => if valid_encoded_path escaped then escaped else escape_path decoded
+            | None => u_path u
+            end in
+  let path1 := match escaped_path_of (resolve_path ep []) with Some p => p | None => ep end in
   let scheme := u_scheme u in
   let '(host, port0) := split_host_port (u_host u) in
   let defp := default_port scheme in
   let port := match port0 with [] => defp | _ => port0 end in
+  let lhost := lower host in
+  let bhost := if contains_byte 58 lhost then [91] ++ lhost ++ [93] else lhost in
   let hostport :=
-    lower host ++ (if negb (beq port []) && negb (beq port defp) then 58 :: port else []) in
+    bhost ++ (if negb (beq port []) && negb (beq port defp) then 58 :: port else []) in
   let path2 :=
     match path1 with
     | [] => if beq scheme (bs "http") || beq scheme (bs "https") then [47] else []
